@@ -110,7 +110,9 @@ func c16Build(v c16Vec, placement int) *c16Decl {
 	bare := &decl.Cmd{Field: "Bare", Name: "barecmd", Desc: "BARECDESC", Cmds: []*decl.Cmd{leaf}}
 	// a described command whose name is longer in bytes than in characters, and the longest of all in bytes
 	uml := &decl.Cmd{Field: "Uml", Name: "größe-ändern", Desc: "UMLCDESC"}
-	top.Cmds = []*decl.Cmd{add, rm, hc, bare, uml}
+	// a command whose only option sits in a group of its own
+	gonly := &decl.Cmd{Field: "Gonly", Name: "grouponly", Desc: "GONLYCDESC", Groups: []*decl.Group{{Field: "GoG", Name: "GOGNAME", Opts: []*decl.Opt{by("GoO", "", "goopt", "GOODESC")}}}}
+	top.Cmds = []*decl.Cmd{add, rm, hc, bare, uml, gonly}
 	switch placement {
 	case c16PlParser:
 		top.Opts = append(top.Opts, u)
@@ -368,7 +370,7 @@ func init() {
 			return
 		}
 		if gen == 2 {
-			for _, m := range []string{"toplong", "TOPDESC", "subopt", "SUBODESC", "addopt", "ADDODESC", "cgopt", "deepopt", "rmopt", "ADDDESC", "ADDALX", "DEEPDESC", "RMALX", "RMDESC", "barecmd", "BARECDESC", "leafcmd", "LEAFCDESC", "leafopt", "LEAFODESC"} {
+			for _, m := range []string{"toplong", "TOPDESC", "subopt", "SUBODESC", "addopt", "ADDODESC", "cgopt", "deepopt", "rmopt", "ADDDESC", "ADDALX", "DEEPDESC", "RMALX", "RMDESC", "barecmd", "BARECDESC", "leafcmd", "LEAFCDESC", "leafopt", "LEAFODESC", "grouponly", "goopt", "GOODESC"} {
 				if !has(m) {
 					c.Fail("visible-item-missing|man|bystander", m)
 					return
